@@ -279,6 +279,50 @@ theorem round_posed_aabb_contains (S : V3 K → Prop) (b : Aabb3 K) (br : K) (hb
   · rintro x ⟨q', hq', rfl⟩; exact h q' hq'
   · rw [IsoLemmas.act_dist sq m p q hq]; exact hd
 
+/-- **RoundShape box, 2-D** (`RoundCuboid`, `RoundTriangle`, `RoundConvexPolygon` in `parry2d`): containment and
+tightness of `inner box .loosened(br)` for the Minkowski sum with a disc. -/
+theorem round_aabb2_contains_tight (S : V2 K → Prop) (b : Aabb2 K) (br : K) (hbr : 0 ≤ br) :
+    letI := fieldNum K sq
+    ((∀ q, S q → BMem2 b q) → ∀ p, roundMem2 S br p → BMem2 (b.loosened br) p) ∧
+    ((∃ q, S q ∧ q.x = b.maxs.x) → ∃ p, roundMem2 S br p ∧ p.x = (b.loosened br).maxs.x) ∧
+    ((∃ q, S q ∧ q.x = b.mins.x) → ∃ p, roundMem2 S br p ∧ p.x = (b.loosened br).mins.x) ∧
+    ((∃ q, S q ∧ q.y = b.maxs.y) → ∃ p, roundMem2 S br p ∧ p.y = (b.loosened br).maxs.y) ∧
+    ((∃ q, S q ∧ q.y = b.mins.y) → ∃ p, roundMem2 S br p ∧ p.y = (b.loosened br).mins.y) := by
+  refine ⟨?_, ?_, ?_, ?_, ?_⟩
+  · rintro h p ⟨q, hq, hd⟩
+    obtain ⟨⟨h1, h2⟩, h3, h4⟩ := h q hq
+    simp only [V2.normSq, V2.dot, V2.sub] at hd
+    have sx := mul_self_nonneg (p.x - q.x); have sy := mul_self_nonneg (p.y - q.y)
+    have ax : |p.x - q.x| ≤ br := abs_le_of_sq_le_sq' (by nlinarith) hbr |> abs_le.2
+    have ay : |p.y - q.y| ≤ br := abs_le_of_sq_le_sq' (by nlinarith) hbr |> abs_le.2
+    rw [abs_le] at ax ay
+    simp only [Aabb2.loosened, V2.add, BMem2]
+    refine ⟨⟨?_, ?_⟩, ?_, ?_⟩ <;> linarith [ax.1, ax.2, ay.1, ay.2]
+  · rintro ⟨q, hq, e⟩
+    refine ⟨⟨q.x + br, q.y⟩, ⟨q, hq, ?_⟩, ?_⟩
+    · simp only [V2.normSq, V2.dot, V2.sub]; nlinarith
+    · simp only [Aabb2.loosened, V2.add]; rw [e]
+  · rintro ⟨q, hq, e⟩
+    refine ⟨⟨q.x + -br, q.y⟩, ⟨q, hq, ?_⟩, ?_⟩
+    · simp only [V2.normSq, V2.dot, V2.sub]; nlinarith
+    · simp only [Aabb2.loosened, V2.add]; rw [e]
+  · rintro ⟨q, hq, e⟩
+    refine ⟨⟨q.x, q.y + br⟩, ⟨q, hq, ?_⟩, ?_⟩
+    · simp only [V2.normSq, V2.dot, V2.sub]; nlinarith
+    · simp only [Aabb2.loosened, V2.add]; rw [e]
+  · rintro ⟨q, hq, e⟩
+    refine ⟨⟨q.x, q.y + -br⟩, ⟨q, hq, ?_⟩, ?_⟩
+    · simp only [V2.normSq, V2.dot, V2.sub]; nlinarith
+    · simp only [Aabb2.loosened, V2.add]; rw [e]
+
+/-- **RoundCone / RoundCylinder / …, the real code path** (`compute_aabb(pos) = inner.aabb(pos).loosened(br)`), instance
+for the cone: the loosened support-map box contains every point of the posed rounded cone. -/
+theorem round_cone_aabb_contains (hs : LawfulSqrt sq) (hh r br : K) (m : Iso3 K) (hh0 : 0 < hh) (hr : 0 ≤ r) (hbr : 0 ≤ br)
+    (hq : m.qi * m.qi + m.qj * m.qj + m.qk * m.qk + m.qw * m.qw = 1) :
+    letI := fieldNum K sq
+    ∀ p, roundMem3 (Cone.mk hh r).Mem br p → BMem ((coneAabb hh r m).loosened br) (m.act p) :=
+  round_posed_aabb_contains sq _ _ br hbr m hq (fun q hq' => cone_aabb_contains sq hs hh r m hh0 hr q hq')
+
 /-! ## triangles -/
 
 private theorem conv3 (a b c u v lo hi : K) (hu : 0 ≤ u) (hv : 0 ≤ v) (huv : u + v ≤ 1)
